@@ -88,6 +88,7 @@ pub fn replay(path: &str) -> i32 {
         Some("client-sm") => client_sm::replay(scn),
         Some("client-tie") => client_sm::replay_tie(scn),
         Some("c08-tls") => tls::c08_tls_phase().violations_as_pairs(),
+        Some("c16-ffi-refused-add") => ffi::replay_c16_refused_add(),
         Some("client-stream") => framing::replay_client_stream(scn),
         k => {
             eprintln!("unknown replay kind {k:?}");
